@@ -287,7 +287,8 @@ func VerifAtRuleKinds() {
 	for i := range name {
 		c := ar.name[i]
 		if c >= 'a' && c <= 'z' {
-			vAssume(name[i] == c || name[i] == c-32)
+			nc := name[i]
+			vAssume(nc == c || nc == c-32)
 		} else {
 			vAssume(name[i] == c)
 		}
